@@ -7,7 +7,7 @@ namespace vfspec {
 using namespace fixedmath;
 extern "C" {
 // series kernel atan<16> on its call domain [0, 7/16]
-constexpr bool pre_atan_k(long z) { return z >= 0 && z <= 28672; }
+constexpr bool pre_atan_k(long z) { return z >= 0 && z <= 32768; }      // call sites need [0, 28672]
 constexpr bool post_atan_k(long z, long r) { return r >= 0 && r <= z && (z > 26887 || r <= 25515) && (z != 0 || r == 0); }
 // atan_sum<c>: atan(c) + atan((x - c) / (1 + x*c)) for x >= c; the reduced argument stays inside the kernel domain
 constexpr bool pre_atan_sum1(long x) { return x >= 28672 && x < 45056; }
